@@ -296,6 +296,12 @@ Theorem walk_user_no_escape cf ufuncs udirs :
   forall fuel n st, no_escape (fst (walk_user cf ufuncs udirs fuel n st)).
 Proof. intros H. apply walk_hook_no_escape. apply user_hooks_answer. exact H. Qed.
 
+Theorem walk_user_no_escape' cf ufuncs udirs :
+  (forall name uf vs, ufuncs name = Some uf -> uf_apply uf vs <> UNoReturn) ->
+  (forall name ud v args, udirs name = Some ud -> ud_apply ud v args <> UNoReturn) ->
+  forall fuel n st, no_escape (fst (walk_user cf ufuncs udirs fuel n st)).
+Proof. intros H1 H2. apply walk_user_no_escape. split; assumption. Qed.
+
 (* Renderer.Execute with them: the handler's own code is safe too (positions stay inside the source) *)
 Theorem render_user_no_escape cf ufuncs udirs fuel name data_id data cl bl first_id :
   user_code_returns ufuncs udirs -> reg_ok (c_reg cf) = true ->
@@ -330,3 +336,13 @@ Example user_directive_on_value :
                  (NPrint 0 n [NDirective 5 (b "count") []]) (init_state [] 0 [] None None 2) in
   rev (out (snd (run (NListLit 1 [NInt 2 7; NInt 4 8])))) = [b "2"] /\ is_err (fst (run (NInt 1 3))) = true.
 Proof. vm_compute. split; reflexivity. Qed.
+
+Theorem render_user_no_escape' cf ufuncs udirs fuel name data_id data cl bl first_id :
+  (forall name uf vs, ufuncs name = Some uf -> uf_apply uf vs <> UNoReturn) ->
+  (forall name ud v args, udirs name = Some ud -> ud_apply ud v args <> UNoReturn) ->
+  reg_ok (c_reg cf) = true ->
+  no_escape (rr_outcome (render_hook cf (funcs_with_user ufuncs) (dirs_with_user udirs) fuel name data_id data cl bl first_id)).
+Proof. intros H1 H2 Hreg. apply render_user_no_escape; [split; assumption | assumption]. Qed.
+
+Theorem user_noreturn_not_covered : recover_func UNoReturn = Diverge /\ recover_directive UNoReturn = Diverge.
+Proof. split; reflexivity. Qed.
